@@ -229,6 +229,13 @@ func (c *contentValidator) ValidatePermissionChange(ch *aclrecordproto.AclAccoun
 		return ErrNoSuchAccount
 	}
 
+	if currentState.Permissions.NoPermissions() {
+		// an account without permissions (removed, declined, canceled or still requesting) holds no current read key
+		// and a permission change delivers none: it has to be (re-)admitted with AccountsAdd, RequestAccept or
+		// InviteJoin, which carry the encrypted read key
+		return ErrInsufficientPermissions
+	}
+
 	if currentState.Permissions == AclPermissionsGuest {
 		// it shouldn't be possible to change permission of guest user
 		// it should be only possible to remove it with AccountRemove acl change
